@@ -19,6 +19,7 @@ Only statements live here; proofs are in CueVerif/Proofs/{JsonSchema,JsonSchemaS
 import CueVerif.Proofs.JsonSchema
 import CueVerif.Proofs.JsonSchemaSkel
 import CueVerif.Proofs.JsonSchemaCCFlat
+import CueVerif.Proofs.JsonSchemaCCMain
 namespace CueVerif.C13
 open CueVerif CueVerif.JS CueVerif.Skel CueVerif.CCm
 
@@ -283,19 +284,75 @@ example : typeOk [.integer, .string] = true ∧ intForm (.num ⟨3, 1⟩) = true
 
 /-- `prefixItems` as emitted (`[a, b, ...]`) REQUIRES the prefix elements to be present, JSON
 Schema does not: `{"prefixItems":[{"type":"string"}]}` accepts `[]` per the specification, the
-translation rejects it (model: here; code: replayed by the harness, class `prefixItems-requires-presence`) -/
+translation rejects it (model: here; code: replayed by the harness and counted as an OBSERVATION —
+prefixItems is outside the property's keyword subset, so this is not a finding) -/
 theorem C13_prefixItems_presence_false :
     let s : Schema := .obj [.prefixItems [.obj [.type [.string]]]]
     valid tinyRe s 5 s (.arr []) = some true ∧
     acc tinyRe (translate 5 KSet.full s).expr (.arr []) = false := by
   decide
 
-/-- THE semantic-preservation statement for the whole transcribed subset: -- OPEN (proved so far:
-the kind skeleton `C13_cc_kind_skeleton`, every leaf builder `C13_leaf_exact/_step`, `type`
-`C13_type_step`, and the combinator encodings `C13_*_exact` / `C13_*_enc` on the semantic model; the
-induction over nested schemas through `translate` is not finished).  The guards a proof needs are
-known: `typeOk`, `intForm` on every number of the instance and of enum/const values, no literal
-`false` under allOf/oneOf, the allOf region of `C13_allOf_enc_partial`, `minItems ≥ len(prefixItems)`. -/
+/-- SEMANTIC PRESERVATION THROUGH `translate`, by induction over nested schemas (any depth), for the
+guarded fragment `fragOK`: leaf keywords (minimum, maximum, exclusiveMinimum, exclusiveMaximum,
+multipleOf, minLength, maxLength, pattern, minItems, maxItems), `type`, `not`, `anyOf`, `oneOf`,
+minContains/maxContains without contains, uniqueItems:false — with the guards evaluated ALONG the
+real translation (on the state each builder sees): `typeOk` for every `type`, and for `oneOf` "the
+matchN(1,…) constraint is emitted or no member is kept" (the no-constraint shortcut is proved on the
+semantic model, `C13_oneOf_enc`).  Instance guard: `intForm` (the known deviation
+`number-literal-form`).  For every such schema and instance the oracle's verdict IS the acceptance
+of the translated CUE constraint. -/
+theorem C13_translate_exact_partial (re) (n : Nat) (s : Schema) (j : Json)
+    (hs : fragOK n KSet.full s = true) (hj : intForm j = true) :
+    valid re s n s j = some (acc re (translate n KSet.full s).expr j) :=
+  CCm.translate_exact_partial re n s j hs hj
+
+/-- the inductive statement behind it, RELATIVE to the allowed types `T` handed down by the parent
+(int-closed) and at kind granularity: exactness, soundness w.r.t. the member's `allowedTypes` /
+`knownTypes`, and "a member without constraints accepts exactly its allowed kinds" -/
+theorem C13_translate_good (re) (root : Schema) (j : Json) (hj : intForm j = true) (n : Nat) (T : KSet)
+    (s : Schema) (hT : CCm.IntClosed T) (hs : fragOK n T s = true) :
+    CCm.GoodA re (translate n) (fun s => valid re root n s j) j T s :=
+  CCm.translate_good re root j hj n T s hT hs
+
+-- non-vacuity: a nested schema of the fragment (depth 3, combinators inside combinators, `type`
+-- narrowing what the members see) passes the guard; and the theorem's two sides on it (a test)
+example : fragOK 5 KSet.full (.obj [.type [.number, .string], .minLength 2,
+    .anyOf [.obj [.minimum ⟨3, 1⟩, .not (.obj [.multipleOf ⟨2, 1⟩])], .obj [.type [.string]]],
+    .oneOf [.obj [.maximum ⟨10, 1⟩], .obj [.pattern "^a"]]]) = true := by decide
+
+/-- the step lemmas of the combinator builders on the state, relative to the allowed types -/
+theorem C13_anyOf_step (re tr vf) (st : TSt) (ss : List Schema) (j : Json) (hI : CCm.SInv re st j)
+    (hg : ∀ s ∈ ss, CCm.GoodA re tr vf j st.allowed s) :
+    CCm.SInv re (bAnyOf tr ss st) j ∧ (any3 (ss.map vf)).isSome = true ∧
+    stAcc re (bAnyOf tr ss st) j = (stAcc re st j && (any3 (ss.map vf)).getD false) :=
+  CCm.anyOf_step re tr vf st ss j hI hg
+
+theorem C13_oneOf_step (re tr vf) (st : TSt) (ss : List Schema) (j : Json) (hI : CCm.SInv re st j)
+    (hg : ∀ s ∈ ss, CCm.GoodA re tr vf j st.allowed s)
+    (hneeds : (CCm.oneOfNeeds KSet.empty (keptSubs tr st.allowed ss) ||
+      (keptSubs tr st.allowed ss).isEmpty) = true) :
+    CCm.SInv re (bOneOf tr ss st) j ∧ (one3 (ss.map vf)).isSome = true ∧
+    stAcc re (bOneOf tr ss st) j = (stAcc re st j && (one3 (ss.map vf)).getD false) :=
+  CCm.oneOf_step re tr vf st ss j hI hg hneeds
+
+theorem C13_not_step (re tr vf) (st : TSt) (s : Schema) (j : Json) (hI : CCm.SInv re st j)
+    (hg : CCm.GoodA re tr vf j KSet.full s) :
+    CCm.SInv re (bNot tr s st) j ∧ (not3 (vf s)).isSome = true ∧
+    stAcc re (bNot tr s st) j = (stAcc re st j && (not3 (vf s)).getD false) :=
+  CCm.not_step re tr vf st s j hI hg
+
+/-- THE semantic-preservation statement for the WHOLE transcribed subset (`inModel`): -- OPEN.
+Proved: `C13_translate_exact_partial` (fragment above).  Exactly missing, each a `kw_step` case of
+Proofs/JsonSchemaCCMain.lean plus its guard in `kwOk`:
+ * `allOf_step`: spec of `allOfLoop` (member-by-member narrowing; invariant "hasCore al' ∧ all hasC
+   members accept ⇔ all members valid", region of `C13_allOf_enc_partial`, no literal `false` member);
+ * `ifThenElse_step`: `bIfThenElse` after the phases + tracking `st.ifS/thenS/elseS = findIf/findThen/
+   findElse kws` under distinct keys (the `then` narrowing is covered by `GoodA.sound` of `if`);
+ * `oneOf_noNeeds` through `translate` (IntClosed in place of `Sub.WF.whole`);
+ * `enum_step` / `const_step`: `litEq = jeq` on normal-form data and the kind-level (not core-level)
+   invariant `stAcc st j → st.allowed (kindOf j)`, since enum/const can leave `{float}`;
+ * `contains_step`, `items_step`, `uniqueItems_step`: instance guard `intForm` on all array
+   elements, `minItems ≥ len(prefixItems)` for prefixItems. -/
 def C13_translate_exact_stmt (guard : Nat → Schema → Json → Prop) : Prop :=
   ∀ (n : Nat) (s : Schema) (j : Json), inModel n s = true → guard n s j →
     valid tinyRe s n s j = some (acc tinyRe (translate n KSet.full s).expr j)
